@@ -10,8 +10,10 @@ pub struct Prop {
 }
 
 pub mod c05;
+pub mod c09;
+pub mod c11;
 
-pub static PROPS: &[&Prop] = &[&c05::PROP];
+pub static PROPS: &[&Prop] = &[&c05::PROP, &c09::PROP, &c11::PROP];
 
 pub fn lookup(id: &str) -> Option<&'static Prop> {
     PROPS.iter().copied().find(|p| p.id == id)
